@@ -157,4 +157,21 @@ CHECKS = {
               "random.choice, immutability of cfg and Variance constants; bound / kept / arity clauses are bounded (synthetic "
               "declarations up to 4 parameters x pools x requests x variance maps + generator calls for a seed list)"),
         design='DESIGN.md section 4 (C08), 2.7'),
+    'C11': dict(
+        level='proof',
+        technique='state-reset obligations of the translators (every instance attribute a visit can change is re-initialised by _reset_state / saved and restored; decided with z3 from the real AST) and a syntactic write-frame analysis of all four translators (no store whose receiver is reachable from the program argument); bounded replay of translation histories',
+        text=("Decided for every program and history, on the real source of the four translators: (a) reset discipline -- each "
+              "instance attribute that any visit method of JavaTranslator / GroovyTranslator may change is assigned in "
+              "_reset_state to a value equal to the one __init__ gives it, and visit_program calls _reset_state before reading "
+              "any of them, so the text cannot depend on earlier translations through translator state; (b) write frame -- "
+              "every attribute store, augmented assignment, subscript store and in-place mutator call in the translators has a "
+              "receiver rooted at self or at an object created in the same function, never at a node of the program. Not "
+              "proved: Kotlin / Scala use save-and-restore instead of reset, and writes performed by IR helper methods the "
+              "translators call (the defect repaired in /repo was such a write) -- both are covered by the bounded part: "
+              "byte-identical text and an unchanged program over histories of translations of generated, erased, overwritten "
+              "and hand-built programs."),
+        note=("trusted: the syntactic attribute-change and aliasing analysis (module-level containers tracked, attribute values "
+              "aliased between methods not); callee chains into src/ir are bounded only; string building of the 31 visit "
+              "methods per translator is not under contract"),
+        design='DESIGN.md section 4 (C11)'),
 }
